@@ -10,6 +10,7 @@ Background patterns are written through the same rows (harness action, read
 back before use); everything the properties talk about goes through BASIC
 statements.
 """
+import os
 import signal
 import logging
 
@@ -43,6 +44,11 @@ def graphics_modes():
             out.append((adapter, nr, name))
     if not out:
         raise CheckError('no graphics modes found in modes._MODES')
+    # development aid only (mutant runs): VERIF_GFX_ONLY=cga,tandy restricts the adapters;
+    # unset in every registered run
+    only = os.environ.get('VERIF_GFX_ONLY')
+    if only:
+        out = [m for m in out if m[0] in only.split(',')]
     return out
 
 
